@@ -1117,6 +1117,14 @@ def mesh_table_dimension_tests(ctx: Context, rule: str) -> None:
             # spelled out another way: the obligation is read off the facts below only when the set comparison is there
             ctx.check(rule, False, f"has_valid_{table}_connectivity compares the table's dimensions with the expected pair", fi, fi.node, construct='no `actual != expected` test')
             continue
+        # the expected pair: the table's own primary dimension and its second one
+        pairs_ = {'face_node': {'self.face_dimension', 'self.max_node_dimension'}, 'face_edge': {'self.face_dimension', 'self.max_node_dimension'},
+                  'face_face': {'self.face_dimension', 'self.max_node_dimension'}, 'edge_node': {'self.edge_dimension', 'self.two_dimension'},
+                  'edge_face': {'self.edge_dimension', 'self.two_dimension'}}
+        exp_ = [st for st in walk_no_nested(fi.node) if isinstance(st, ast.Assign) and norm_text(st.targets[0]) == 'expected']
+        got_ = {norm_text(e) for e in exp_[0].value.elts} if len(exp_) == 1 and isinstance(exp_[0].value, (ast.Set, ast.Tuple, ast.List)) else None
+        ctx.check(rule, got_ == pairs_[table], f"{table}: the dimensions expected of the table are its own two", fi, exp_[0] if exp_ else fi.node,
+                  construct=f"expected = {sorted(got_) if got_ is not None else '?'}")
         falses = [r for r in fi.returns() if isinstance(r.value, ast.Constant) and r.value.value is False]
         trues = [r for r in fi.returns() if isinstance(r.value, ast.Constant) and r.value.value is True]
         under_mismatch = [r for r in falses if (('actual != expected', True) in facts(ctx, fi, r, expand=False) or ('actual == expected', False) in facts(ctx, fi, r, expand=False))]
@@ -1186,3 +1194,60 @@ def ugrid_inventory(ctx: Context, rule: str) -> None:
         ok = hit is not None and {(t, pol) for t, pol in hit[1] if 'topology' in t} in ({(f"self.topology.{coord} is None", False)}, {(f"self.topology.{coord} is not None", True)})
         ctx.check(rule, ok, f"{coord}: the optional coordinate variable is geometry exactly when the mesh names one that exists", fi, hit[0] if hit else fi.node,
                   construct=f"{coord}: {'listed under ' + str(sorted(t if pol else 'not ' + t for t, pol in hit[1])) if hit else 'not listed'}")
+
+
+ROLE_BINDINGS = [
+    # (function, what its single return / its stores must be, in normal form)  - read off the reviewed tree and confirmed by reading; one line per role
+    ('emsarray.conventions.grid.CFGridTopology.latitude', 'return', 'self.dataset[self.latitude_name]'),
+    ('emsarray.conventions.grid.CFGridTopology.longitude', 'return', 'self.dataset[self.longitude_name]'),
+    ('emsarray.conventions.arakawa_c.ArakawaCGridTopology.latitude', 'return', 'self.dataset[self.latitude_name]'),
+    ('emsarray.conventions.arakawa_c.ArakawaCGridTopology.longitude', 'return', 'self.dataset[self.longitude_name]'),
+    ('emsarray.conventions.grid.CFGrid1DTopology.latitude_bounds', 'return', 'self._get_or_make_bounds(self.latitude)'),
+    ('emsarray.conventions.grid.CFGrid1DTopology.longitude_bounds', 'return', 'self._get_or_make_bounds(self.longitude)'),
+    ('emsarray.conventions.grid.CFGrid2DTopology.latitude_bounds', 'return', 'self._get_or_make_bounds(self.latitude)'),
+    ('emsarray.conventions.grid.CFGrid2DTopology.longitude_bounds', 'return', 'self._get_or_make_bounds(self.longitude)'),
+    ('emsarray.conventions.arakawa_c.ArakawaC.face', 'return', 'self._topology_for_grid_kind[ArakawaCGridKind.face]'),
+    ('emsarray.conventions.arakawa_c.ArakawaC.left', 'return', 'self._topology_for_grid_kind[ArakawaCGridKind.left]'),
+    ('emsarray.conventions.arakawa_c.ArakawaC.back', 'return', 'self._topology_for_grid_kind[ArakawaCGridKind.back]'),
+    ('emsarray.conventions.arakawa_c.ArakawaC.node', 'return', 'self._topology_for_grid_kind[ArakawaCGridKind.node]'),
+    ('emsarray.conventions.grid.CFGridTopology.__init__', 'store', {'self.latitude_name': 'latitude', 'self.longitude_name': 'longitude'}),
+    ('emsarray.conventions.arakawa_c.ArakawaCGridTopology.__init__', 'store', {'self.latitude_name': 'latitude', 'self.longitude_name': 'longitude'}),
+]
+
+
+def role_bindings(ctx: Context, rule: str) -> None:
+    """Latitude is latitude and the face grid is the face grid: the small properties through which every convention reaches its coordinate variables
+    bind each role to its own name - `latitude` reads `latitude_name`, `longitude_bounds` is made from `longitude`, `ArakawaC.left` is the topology
+    of `ArakawaCGridKind.left`, a topology stores the latitude it was given under `latitude_name`.  The pairs differ in one word, which is what a
+    copy-and-paste slip changes; on a square grid nothing fails.  The table is the reviewed tree's, one line per role."""
+    from .common import expand_locals
+    for qual, kind, want in ROLE_BINDINGS:
+        fi = ctx.p.functions.get(qual)
+        if fi is None:
+            ctx.check(rule, False, f"{qual.rsplit('.', 2)[-2]}.{qual.rsplit('.', 1)[-1]} exists", None, None, construct='absent')
+            continue
+        flow = ctx.flow(fi)
+        if kind == 'return':
+            rets = fi.returns()
+            got = sorted({norm_text(expand_locals(flow, r.value)) for r in rets if r.value is not None})
+            # (a call of the helper and a subscript of the cached table are the same binding)
+            canon = [g.replace('_topology_for_grid_kind(', '_topology_for_grid_kind[').rstrip(')') + (']' if '_topology_for_grid_kind(' in g else '') if '_topology_for_grid_kind(' in g else g for g in got]
+            ctx.check(rule, canon == [want], f"{fi.short} is bound to its own role", fi, rets[0] if rets else fi.node, construct=f"{fi.short} -> {got or 'no return'}; expected {want}")
+        else:
+            stores = {}
+            for st in walk_no_nested(fi.node):
+                if isinstance(st, ast.Assign) and len(st.targets) == 1 and isinstance(st.targets[0], ast.Attribute):
+                    stores.setdefault(norm_text(st.targets[0]), set()).add(norm_text(expand_locals(flow, st.value)))
+            for tgt, val in sorted(want.items()):
+                ctx.check(rule, stores.get(tgt) == {val}, f"{fi.short} keeps `{val}` under `{tgt}`", fi, fi.node, construct=f"{fi.short}: {tgt} = {sorted(stores.get(tgt, [])) or 'never stored'}")
+    # the Arakawa inventory names both coordinates of all four grids
+    inv = ctx.func('emsarray.conventions.arakawa_c.ArakawaC.get_all_geometry_names')
+    iflow = ctx.flow(inv)
+    names = set()
+    for r in inv.returns():
+        v = iflow.resolve(r.value)
+        if isinstance(v, (ast.List, ast.Tuple)):
+            names |= {norm_text(expand_locals(iflow, e)) for e in v.elts}
+    want_inv = {f"self.{g}.{c}.name" for g in ('face', 'node', 'left', 'back') for c in ('longitude', 'latitude')}
+    ctx.check(rule, names == want_inv, "the Arakawa C inventory names the longitude and the latitude of the face, node, left and back grids", inv, inv.node,
+              construct=f"missing {sorted(want_inv - names) or 'none'}; other {sorted(names - want_inv) or 'none'}")
